@@ -9,7 +9,7 @@ CHECKS = ("C03", "C06", "C07", "C09", "C10", "C11", "C12")
 
 # (runs in quick tier, batch size, thorough default budget seconds, thorough max runs)
 TIERS = {
-    "C03": {"quick": 840, "batch": 28, "thorough_s": 900, "thorough_max": 40_000},
+    "C03": {"quick": 840, "batch": 12, "thorough_s": 900, "thorough_max": 40_000},
     "C06": {"quick": 640, "batch": 20, "thorough_s": 900, "thorough_max": 400_000},
     "C07": {"quick": 480, "batch": 15, "thorough_s": 600, "thorough_max": 400_000},
     "C09": {"quick": 480, "batch": 15, "thorough_s": 1200, "thorough_max": 400_000},
